@@ -1,7 +1,8 @@
 (* Reference semantics of the Package Manager Specification, written from the
    specification text (PMS ch. 3.2/3.3 "version comparison", Algorithms 3.1-3.7;
    ch. 8.3.1 operators, 8.3.3 slot dependencies, 8.3.4 USE dependencies) as
-   transcribed in DESIGN.md Appendix D.  Nothing in this file is derived from the
+   transcribed in DESIGN.md Appendix D; the flags of an installed package (7.2 IUSE and
+   its prefixes, 11.1.1 USE / IUSE_EFFECTIVE) at the end of the file.  Nothing in this file is derived from the
    Go code.  Definitions only. *)
 From LC Require Import Lib.Bytes.
 Open Scope N_scope.
@@ -218,5 +219,31 @@ Definition use_match (deps : list usedep) (cand parent : list (bytes * bool)) : 
     match use_dep_ok (u_form d) (u_def d) (lookup (u_flag d) cand)
                      (match lookup (u_flag d) parent with Some b => b | None => false end) with
     | Some true => true | _ => false end) deps.
+
+(* ---- the USE flags of an *installed* package (PMS 7.2 IUSE, 11.1.1 USE / IUSE_EFFECTIVE; the
+   installed-package database records, per package, the files IUSE, IUSE_EFFECTIVE (EAPI 5 and
+   later) and USE) ----
+   IUSE lists the flags the ebuild declares; a flag may carry a "+" or "-" prefix, which states
+   the *default* the package manager uses when it builds the package and the user has expressed
+   no preference.  IUSE_EFFECTIVE is IUSE without prefixes plus the implicit flags; it is what
+   USE dependencies are checked against; a package recorded without it (EAPI 4 and older) has
+   only its IUSE.  USE is the outcome of the build: exactly the flags that were enabled.  Once
+   USE is recorded the prefixes have done their work: an installed package has a flag enabled
+   iff the flag is declared and listed in USE.
+   [eff]: the flags of the IUSE_EFFECTIVE file, None = no such file; [iuse]: the tokens of the
+   IUSE file as (prefix, flag) with prefix 0 none / 1 "+" / 2 "-"; [use]: the words of USE. *)
+Definition mem (x : bytes) (l : list bytes) : bool := existsb (beq x) l.
+
+Definition declared_flags (iuse : option (list (N * bytes))) (eff : option (list bytes)) : list bytes :=
+  match eff with
+  | Some l => l
+  | None => match iuse with Some l => map snd l | None => [] end
+  end.
+
+(* every declared flag with its state *)
+Definition installed_flags (iuse : option (list (N * bytes))) (eff : option (list bytes))
+                           (use : option (list bytes)) : list (bytes * bool) :=
+  let on := match use with Some l => l | None => [] end in
+  map (fun f => (f, mem f on)) (declared_flags iuse eff).
 
 End PMS.
